@@ -509,11 +509,17 @@ func (p *proxyConn) writeResponse(res *http.Response) error {
 		// This is safe for events that are smaller than the buffer io.Copy uses (32KB).
 		// If the event is larger than the buffer, the event will be split into multiple chunks.
 		switch {
-		case isTextEventStream(res):
-			w := newPatternFlushWriter(p.brw.Writer, p.brw.Writer, sseFlushPattern)
+		case shouldChunk(res) && len(res.TransferEncoding) > 0:
+			// Written in the chunked coding, flush after each chunk:
+			// it delivers an event stream whatever its line endings are.
+			w := newPatternFlushWriter(p.brw.Writer, p.brw.Writer, chunkFlushPattern)
 			err = res.Write(w)
 		case shouldChunk(res):
-			w := newPatternFlushWriter(p.brw.Writer, p.brw.Writer, chunkFlushPattern)
+			// Unknown length delimited by closing the connection, there is no chunk boundary to wait for.
+			w := flushAfterWrite{p.brw.Writer, p.brw.Writer}
+			err = res.Write(w)
+		case isTextEventStream(res):
+			w := newPatternFlushWriter(p.brw.Writer, p.brw.Writer, sseFlushPattern)
 			err = res.Write(w)
 		default:
 			err = res.Write(p.brw)
